@@ -81,6 +81,12 @@ protected:
     virtual bool
     childTypeAllowed(int    xslToken) const;
 
+    virtual void
+    namespacesPostConstruction(
+            StylesheetConstructionContext&  constructionContext,
+            const NamespacesHandler&        theParentHandler,
+            NamespacesHandler&              theHandler);
+
 private:
 
     // not implemented
